@@ -153,6 +153,22 @@ static void sweep_arrays(mon::Rng& rng)
     mon::abort_flag = 0;
     rlbox::detail::convert_type_fundamental_or_array(b3, a3);
     judge("std::array<T,3>", a3.data(), b3.data(), 3, mon::abort_flag != 0);
+    // the same array as std::array with volatile-qualified ELEMENTS on the destination side (the shape an array in sandbox
+    // memory has inside the library) and on the source side: every qualifier combination has to take the same decisions
+    {
+      std::array<volatile To, 3> vb{};
+      mon::abort_flag = 0;
+      rlbox::detail::convert_type_fundamental_or_array(vb, a3);
+      To plain[3];
+      for (int i = 0; i < 3; i++) plain[i] = vb[i];
+      judge("std::array<volatile T,3>/destination", a3.data(), plain, 3, mon::abort_flag != 0);
+      std::array<volatile From, 3> va{};
+      for (int i = 0; i < 3; i++) va[i] = a3[i];
+      std::array<To, 3> b4{};
+      mon::abort_flag = 0;
+      rlbox::detail::convert_type_fundamental_or_array(b4, va);
+      judge("std::array<volatile T,3>/source", a3.data(), b4.data(), 3, mon::abort_flag != 0);
+    }
   }
   mon::evals(n);
   mon::hit("array-exact-value-expected-and-observed", exact);
